@@ -26,6 +26,11 @@ type BoundCase struct {
 	Depth int `json:"depth,omitempty"`
 	// WantDepthError: the outcome must be the call-stack-depth error.
 	WantDepthError bool `json:"want_depth_error,omitempty"`
+	// GrowthBound > 0: a feedback loop feeds the result of an allocating built-in
+	// back into it until the value holds at least GrowthBound bytes (>= 64x the
+	// memory limit) and then returns: the memory limit error MUST come first
+	// (bounded growth); a normal return means the growth was not metered.
+	GrowthBound uint64 `json:"growth_bound,omitempty"`
 }
 
 // BoundResult is what the child observed.
@@ -90,6 +95,58 @@ type boundSeed struct {
 	gen      func(r *rand.Rand, n int) Item
 	diverges bool // ignores n: never terminates by itself
 	depth    bool // unbounded recursion: the depth error (or a metering error) is the outcome
+	// growth: feedback loop through an allocating built-in, n = number of "units" the value must
+	// reach before the program returns; unit = lower bound of the bytes one unit occupies
+	growth bool
+	unit   int
+}
+
+// growthSeed builds a script `setup; while <size> < N { step }; return <size>`.
+func growthSeed(name string, unit int, setup, size, step string) boundSeed {
+	return boundSeed{name: name, growth: true, unit: unit, gen: func(r *rand.Rand, n int) Item {
+		decl := ""
+		if strings.Contains(setup, "[S]") {
+			decl = "access(all) struct S { access(all) let v: Int; init(_ v: Int) { self.v = v } }\n"
+		}
+		return scriptItem(name, fmt.Sprintf(`%saccess(all) fun main(): Int { %s; while %s < %d { %s }; return %s }`, decl, setup, size, n, step, size))
+	}}
+}
+
+// growthSeeds: the result of every allocating built-in is fed back into it, so the value grows
+// geometrically (or linearly) without any other allocation dominating: if the built-in does not
+// meter what it allocates, the memory limit is never reached.
+var growthSeeds = []boundSeed{
+	growthSeed("feedback-join-empty-sep", 1, `var s = "0123456789abcdef"`, `s.length`, `s = String.join([s, s], separator: "")`),
+	growthSeed("feedback-join-short-sep", 1, `var s = "0123456789abcdef"`, `s.length`, `s = String.join([s, s, s], separator: ",")`),
+	growthSeed("feedback-join-array", 1, `var s = "ab"; var a = [s, s]`, `s.length`, `s = String.join(a, separator: ""); a = [s, s, s, s]`),
+	growthSeed("feedback-replaceall", 1, `var s = "aaaaaaaa"`, `s.length`, `s = s.replaceAll(of: "a", with: "aa")`),
+	growthSeed("feedback-replaceall-sep", 1, `var s = "a,a,a,a"`, `s.length`, `s = s.replaceAll(of: ",", with: ",a,a,")`),
+	growthSeed("feedback-split-join", 1, `var s = "ab,cd,ef"`, `s.length`, `let parts = s.split(separator: ","); s = String.join(parts.concat(parts), separator: ",")`),
+	growthSeed("feedback-concat", 1, `var s = "0123456789abcdef"`, `s.length`, `s = s.concat(s)`),
+	growthSeed("feedback-template", 1, `var s = "0123456789abcdef"`, `s.length`, `s = "\(s)\(s)"`),
+	growthSeed("feedback-tolower", 1, `var s = "ABCDEFGH"`, `s.length`, `s = s.toLower().concat(s.toLower())`),
+	growthSeed("feedback-slice", 1, `var s = "0123456789abcdef"`, `s.length`, `s = s.slice(from: 0, upTo: s.length).concat(s.slice(from: 0, upTo: s.length))`),
+	growthSeed("feedback-int-tostring", 1, `var s = "123456789"`, `s.length`, `let n = Int.fromString(s)!; s = (n * n).toString()`),
+	growthSeed("feedback-encodehex", 1, `var s = "00ff"`, `s.length`, `s = String.encodeHex(s.utf8)`),
+	growthSeed("feedback-utf8-fromutf8", 1, `var s = "0123456789abcdef"`, `s.length`, `let b = s.utf8; s = String.fromUTF8(b.concat(b))!`),
+	growthSeed("feedback-decodehex", 1, `var b: [UInt8] = [1, 2, 3, 4]`, `b.length`, `let h = String.encodeHex(b); b = h.concat(h).decodeHex()`),
+	growthSeed("feedback-fromcharacters", 1, `var s = "0123456789abcdef"`, `s.length`, `var cs: [Character] = []; for c in s { cs.append(c); cs.append(c) }; s = String.fromCharacters(cs)`),
+	growthSeed("feedback-array-concat", 8, `var a: [Int] = [1, 2, 3, 4]`, `a.length`, `a = a.concat(a)`),
+	growthSeed("feedback-array-map", 8, `var a: [Int] = [1, 2, 3, 4]`, `a.length`, `a = a.concat(a.map(fun (x: Int): Int { return x + 1 }))`),
+	growthSeed("feedback-array-filter", 8, `var a: [Int] = [1, 2, 3, 4]`, `a.length`, `a = a.concat(a.filter(view fun (x: Int): Bool { return true }))`),
+	growthSeed("feedback-array-reverse", 8, `var a: [Int] = [1, 2, 3, 4]`, `a.length`, `a = a.reverse().concat(a.reverse())`),
+	growthSeed("feedback-array-slice", 8, `var a: [Int] = [1, 2, 3, 4]`, `a.length`, `a = a.slice(from: 0, upTo: a.length).concat(a.slice(from: 0, upTo: a.length))`),
+	growthSeed("feedback-array-appendall", 8, `var a: [Int] = [1, 2, 3, 4]`, `a.length`, `a.appendAll(a.slice(from: 0, upTo: a.length))`),
+	growthSeed("feedback-array-insert", 8, `var a: [Int] = [1, 2, 3, 4]`, `a.length`, `a = a.concat(a); a.insert(at: a.length / 2, a.length)`),
+	growthSeed("feedback-array-tovariable", 8, `var a: [Int] = [1, 2, 3, 4]`, `a.length`, `let c: [Int; 4] = [a[0], a[1], a[2], a[3]]; a = a.concat(c.toVariableSized())`),
+	growthSeed("feedback-dict-insert", 16, `let d: {Int: Int} = {}`, `d.length`, `d[d.length] = d.length`),
+	growthSeed("feedback-dict-keys-values", 8, `let d: {Int: Int} = {1: 1, 2: 2}; var a: [Int] = [1]`, `a.length`, `a = a.concat(d.keys).concat(d.values); d[a.length] = 1`),
+	growthSeed("feedback-dict-string-keys", 16, `let d: {String: String} = {}`, `d.length`, `let k = d.length.toString(); d[k] = k`),
+	growthSeed("feedback-nested-arrays", 8, `var a: [[Int]] = [[1, 2, 3, 4, 5, 6, 7, 8]]`, `a.length * 8`, `a = a.concat(a)`),
+	growthSeed("feedback-bigint-square", 1, `var x: Int = 1000003`, `x.toBigEndianBytes().length`, `x = x * x`),
+	growthSeed("feedback-bigint-shift", 1, `var x: UInt = 255`, `x.toBigEndianBytes().length`, `x = x << UInt(x.toBigEndianBytes().length * 8)`),
+	growthSeed("feedback-bigendianbytes", 1, `var b: [UInt8] = [1, 2, 3, 4]`, `b.length`, `b = b.concat(UInt.fromBigEndianBytes(b)!.toBigEndianBytes())`),
+	growthSeed("feedback-struct-array", 8, `var a: [S] = [S(1)]`, `a.length`, `a = a.concat(a)`),
 }
 
 func scriptItem(name, src string) Item {
@@ -255,9 +312,40 @@ access(all) fun main(): Int { let s = attach B() to attach A() to S(); var t = 0
 
 // BoundSeedNames lists the seed templates.
 func BoundSeedNames() []string {
-	out := make([]string, len(boundSeeds))
-	for i, s := range boundSeeds {
-		out[i] = s.name
+	var out []string
+	for _, s := range boundSeeds {
+		out = append(out, s.name)
+	}
+	for _, s := range growthSeeds {
+		out = append(out, s.name)
+	}
+	return out
+}
+
+// GrowthFactor: a value may grow to at most this multiple of the memory limit before the
+// memory limit error must have been raised.
+const GrowthFactor = 64
+
+var growthMemLimits = []uint64{20_000, 200_000}
+
+// GrowthCases: every growth seed x memory limit x engine (n > 0: a random sample of n seeds).
+func GrowthCases(r *rand.Rand, n int) []BoundCase {
+	var out []BoundCase
+	idx := r.Perm(len(growthSeeds))
+	if n > 0 && n < len(idx) {
+		idx = idx[:n]
+	}
+	for _, k := range idx {
+		s := growthSeeds[k]
+		mem := growthMemLimits[r.Intn(len(growthMemLimits))]
+		bound := GrowthFactor * mem
+		units := int(bound) / s.unit
+		bc := BoundCase{Seed: s.name, CompLimit: 2_000_000_000, MemLimit: mem, GrowthBound: bound, Item: s.gen(r, units)}
+		for _, e := range host.Engines {
+			c := bc
+			c.Engine = int(e)
+			out = append(out, c)
+		}
 	}
 	return out
 }
